@@ -26,7 +26,8 @@ for name in sorted(os.listdir(root)):
         how = ex[-1][1].strip() if ex else ""
         und = re.findall(r"UNDECIDED: (.*)", txt)
         if code == 1 and obl:
-            det = {"check": f"python3 /verif/check.py {pid} --tier quick", "result": "VIOLATION", "obligations": [f"{o} ({h})" for o, h in obl][:8], "how_run": how}
+            tier = "thorough" if "tier thorough" in how else "quick"
+            det = {"check": f"python3 /verif/check.py {pid} --tier {tier}", "result": "VIOLATION" if tier == "quick" else "VIOLATION (thorough tier only)", "obligations": [f"{o} ({h})" for o, h in obl][:8], "how_run": how}
         elif code == 2:
             det = {"check": f"python3 /verif/check.py {pid} --tier quick", "result": "UNDECIDED (exit 2, no alarm)", "why": und[:3], "how_run": how}
         elif code == 0:
